@@ -85,8 +85,8 @@ func TestVerifC03ProtoTCPRequest(t *testing.T) {
 	}
 	// (a) all lengths 0..64 of structured prefixes
 	var heads [][]byte
-	for _, l := range []uint64{0, 1, 5, 60, 63, 64, 2047, 2048, 2049, 16383, 1 << 30, 1<<62 - 1} {
-		for _, w := range []int{1, 2, 4, 8} {
+	for _, l := range []uint64{1<<62 - 1, 0, 1, 5, 60, 63, 64, 2047, 2048, 2049, 16383, 1 << 30} { // absurd first
+		for _, w := range []int{8, 4, 2, 1} {
 			heads = append(heads, vfC03Varint(l, w))
 		}
 	}
@@ -150,8 +150,8 @@ func TestVerifC03ProtoTCPResponse(t *testing.T) {
 	var heads [][]byte
 	for _, st := range []byte{0, 1, 2, 0xff} {
 		heads = append(heads, []byte{st})
-		for _, l := range []uint64{0, 1, 63, 2048, 2049, 1<<62 - 1} {
-			for _, w := range []int{1, 2, 8} {
+		for _, l := range []uint64{1<<62 - 1, 0, 1, 63, 2048, 2049} { // absurd first
+			for _, w := range []int{8, 2, 1} {
 				heads = append(heads, vfC03Cat([]byte{st}, vfC03Varint(l, w)))
 			}
 		}
@@ -229,8 +229,8 @@ func TestVerifC03ProtoUDPMessage(t *testing.T) {
 	var heads [][]byte
 	hdr := []byte{0, 0, 0, 1, 0, 2, 0, 1}
 	heads = append(heads, nil, hdr[:4], hdr[:7], hdr)
-	for _, l := range []uint64{0, 1, 3, 55, 56, 57, 63, 64, 2047, 2048, 2049, 16383, 1 << 30, 1<<62 - 1} {
-		for _, w := range []int{1, 2, 4, 8} {
+	for _, l := range []uint64{1<<62 - 1, 0, 1, 3, 55, 56, 57, 63, 64, 2047, 2048, 2049, 16383, 1 << 30} {
+		for _, w := range []int{8, 4, 2, 1} {
 			heads = append(heads, vfC03Cat(hdr, vfC03Varint(l, w)))
 			heads = append(heads, vfC03Cat([]byte{0xff, 0xff, 0xff, 0xff, 0xff, 0xff, 0xff, 0xff}, vfC03Varint(l, w)))
 		}
